@@ -51,3 +51,18 @@ Theorem C07_montgomery_ruint_ops_are_plain_residues : MR_ops_stmt.          Proo
 Print Assumptions C07_montgomery_ruint_ops_are_plain_residues.
 Theorem C07_montgomery_ruint_inv_div_init_constants : MR_inv_div_init_stmt. Proof. exact MR_inv_div_init. Qed.
 Print Assumptions C07_montgomery_ruint_inv_div_init_constants.
+
+(* Part 2 over C06's limb model (coq/C06 imported read-only): the Montgomery functions written as compositions of C06's
+   limb-level primitives (LimbModel.v).  wf = every limb in [0,2^64); val = the integer a limb tree denotes.  Every fact
+   about add/sub/cmp/mul/lmul/lsquare/laddmul/mod_n/div/neg/arazi_qi/inv_mod used in these proofs is a theorem of
+   coq/C06/Properties.v; nothing about the RecInt primitives is assumed. *)
+From C07 Require Import LimbModel ProofsLimb.
+
+Theorem C07_limb_functions_compute_the_integer_model : Limb_refinement_stmt.   Proof. exact Limb_refinement. Qed.
+Print Assumptions C07_limb_functions_compute_the_integer_model.
+Theorem C07_limb_module_constants_exact : Limb_constants_stmt.                 Proof. exact Limb_constants. Qed.
+Print Assumptions C07_limb_module_constants_exact.
+Theorem C07_limb_mga_ops_are_plain_residues_and_agree_with_mgi : Limb_mga_ops_stmt. Proof. exact Limb_mga_ops. Qed.
+Print Assumptions C07_limb_mga_ops_are_plain_residues_and_agree_with_mgi.
+Theorem C07_limb_inverses_on_units : Limb_inverses_stmt.                       Proof. exact Limb_inverses. Qed.
+Print Assumptions C07_limb_inverses_on_units.
